@@ -52,7 +52,8 @@ fn main() {
     let kinds = [FileEventKind::Create(CreateKind::File), FileEventKind::Modify(ModifyKind::Data(DataChange::Content)), FileEventKind::Modify(ModifyKind::Metadata(MetadataKind::Any)),
         FileEventKind::Modify(ModifyKind::Name(RenameMode::Both)), FileEventKind::Remove(RemoveKind::Folder), FileEventKind::Access(AccessKind::Close(AccessMode::Write)),
         FileEventKind::Access(AccessKind::Open(AccessMode::Read)), FileEventKind::Any, FileEventKind::Other, FileEventKind::Modify(ModifyKind::Other)];
-    let names = ["a", "ab", "b", "c.txt", "d e", "x", "src", "é", "z.rs"];
+    // siblings whose name is another name plus a byte below `/` (`.`, `-`, space, `+`): component-wise order and byte order differ there
+    let names = ["a", "a.d", "a-1", "ab", "a b", "a+", "b", "c.txt", "d e", "x", "src", "src.bak", "é", "z.rs"];
     let mut cases = std::fs::File::create(out("cases.txt")).unwrap();
     let mut outs = std::fs::File::create(out("impl.txt")).unwrap();
     for _ in 0..n {
